@@ -6,6 +6,10 @@
 
 package bunpaginate
 
+// what the trusted token contracts below rest on: the JSON form of a cursor carries every field of the query (a field
+// that is unexported or tagged "-" would be dropped from the token, and the page reached through it would forget it)
+//@ jsonfields bunpaginate.ColumnPaginatedQuery // C17
+//@ jsonfields bunpaginate.OffsetPaginatedQuery // C17
 // the cursor token is a function of the cursor struct (base64 of its JSON form; injective as far as JSON is)
 //@ func (*bunpaginate.OffsetPaginatedQuery[PAYLOAD]).EncodeAsCursor
 //@   ensures q == nil ==> ret == ""
